@@ -1446,7 +1446,8 @@ def gen_loop(node, code, codegen):
         codegen.gen_code_for_node(node.cond, code)
         gen_code_for_conv(expr.Type.INTEGER, node.cond, code, codegen)
         if node.kind == 'do_until':
-            code.add(('not',))
+            # logical negation: any non-zero value ends the loop
+            code.add(('push0%',), ('cmp',), ('eq',))
         code.add(('jz', loop_label))
 
     gen_code_for_block(node.body, code, codegen)
@@ -1455,7 +1456,8 @@ def gen_loop(node, code, codegen):
         codegen.gen_code_for_node(node.cond, code)
         gen_code_for_conv(expr.Type.INTEGER, node.cond, code, codegen)
         if node.kind == 'loop_while':
-            code.add(('not',))
+            # logical negation: any non-zero value continues the loop
+            code.add(('push0%',), ('cmp',), ('eq',))
         code.add(('jz', do_label))
     else:
         code.add(('jmp', do_label))
